@@ -535,10 +535,12 @@ namespace fam_lists_rcu {
                 }
                 cdsverif::point();
                 // from here on the item may have been removed (and disposed = buried) by somebody else: unlink must then return false
-                exempt_nodes().push_back( p );
+                // the comparators see the NodeData sub-object (not the first base of a base-hook node)
+                void const* pData = static_cast<NodeData const*>( &*p );
+                exempt_nodes().push_back( pData );
                 r.r = s.unlink( *p ) ? 1 : 0;
                 for ( size_t i = 0; i < exempt_nodes().size(); ++i )
-                    if ( exempt_nodes()[i] == p ) {
+                    if ( exempt_nodes()[i] == pData ) {
                         exempt_nodes().erase( exempt_nodes().begin() + long( i ));
                         break;
                     }
